@@ -250,15 +250,15 @@ instance : Monad M where
   | .err e c' => .ok (some e) c'
   | .stuck x => .stuck x
 
-def isPermOfRange (p : List Nat) (n : Nat) : Bool :=
-  p.length == n && (List.range n).all (fun i => p.contains i)
-
-/-- `slice.shuffle(&mut rng)` on `n` items. -/
-def drawPerm (n : Nat) : M (List Nat) := fun c =>
+/-- `slice.shuffle(&mut rng)`: the oracle says where each element came from (`p[i]` = old position of the
+    element now at position `i`); accepted only if the result is a permutation of the input list
+    (what `rand` is assumed to deliver). -/
+def drawShuffle {α : Type} [BEq α] (l : List α) : M (List α) := fun c =>
   match c.orc.draws with
-  | [] => .stuck (.needDraw .shuffle n)
+  | [] => .stuck (.needDraw .shuffle l.length)
   | .perm p :: rest =>
-    if isPermOfRange p n then .ok p { c with orc := { c.orc with draws := rest } }
+    let l' := p.filterMap (fun i => l[i]?)
+    if l'.isPerm l then .ok l' { c with orc := { c.orc with draws := rest } }
     else .stuck (.badOracle "perm")
   | _ :: _ => .stuck (.badOracle "expected perm")
 
